@@ -460,6 +460,18 @@ def default_lock_id(prog, body, t, fn):
         if t0[0] == "field":
             name = t0[2]
             owners = [o for o, f in prog.field_owner(name) if "Mutex<" in f["ty"] or "RwLock<" in f["ty"]]
+            if len(owners) > 1 or not owners:
+                # a handle struct that carries a clone of another struct's `Arc<Mutex<..>>` does
+                # not own a lock: identity is the aliased field of the struct that created it
+                al = prog.alias_fields()
+                mine = [o for o in owners if (o, name) in al]
+                if mine and len(mine) < len(owners):
+                    owners = [o for o in owners if o not in mine]
+                elif mine and len(mine) == len(owners) and len({al[(o, name)] for o in mine}) == 1:
+                    name2 = al[(mine[0], name)]
+                    owners2 = [o for o, f in prog.field_owner(name2) if ("Mutex<" in f["ty"] or "RwLock<" in f["ty"]) and (o, name2) not in al]
+                    if len(owners2) == 1:
+                        return "%s.%s" % (owners2[0].split("::")[-1], name2)
             if len(owners) == 1:
                 return "%s.%s" % (owners[0].split("::")[-1], name)
             if owners:
